@@ -534,6 +534,12 @@ class ReleaseFilter(Flow):
                 return True if self.has(st, 'in', e.id) else None
         if isinstance(e, ast.Call) and isinstance(e.func, ast.Attribute) and e.func.attr == 'count' and e.args:
             return None
+        if ws_ref(e) is not None:
+            # truthiness of a work set: true when the pending target is known to be in it, unknown otherwise
+            try:
+                return True if self.member(st, e, 'tau') is True else None
+            except Undischarged:
+                return None
         return None
 
 
